@@ -442,6 +442,26 @@ func (s *SecureChannel) Receive(ctx context.Context) *MessageBody {
 				return msg
 			}
 
+			// An OpenSecureChannel chunk is secured with the key of the
+			// certificate it carries itself and not with the keys of the
+			// channel. It must not carry any other service, and its
+			// chunks must not be mixed with those of other messages.
+			for _, c := range all {
+				if c.MessageType == all[0].MessageType {
+					continue
+				}
+				msg.Err = ua.StatusBadSecurityChecksFailed
+				return msg
+			}
+			if all[0].MessageType == MessageTypeOpenSecureChannel {
+				switch body.(type) {
+				case *ua.OpenSecureChannelRequest, *ua.OpenSecureChannelResponse, *ua.ServiceFault:
+				default:
+					msg.Err = ua.StatusBadSecurityChecksFailed
+					return msg
+				}
+			}
+
 			msg.body = body
 
 			// todo(fs): not sure this is correct
